@@ -195,3 +195,37 @@ pub mod report {
         (t, entries(&report), report_flags(&report))
     }
 }
+
+/// Comment scanners of `comment.rs`.
+pub mod comment {
+    use crate::comment::{CharClasses, FullCodeCharKind, LineClasses};
+
+    pub fn kind_letter(k: FullCodeCharKind) -> char {
+        match k {
+            FullCodeCharKind::Normal => 'N',
+            FullCodeCharKind::StartComment => 'S',
+            FullCodeCharKind::InComment => 'C',
+            FullCodeCharKind::EndComment => 'E',
+            FullCodeCharKind::StartStringCommented => 'P',
+            FullCodeCharKind::EndStringCommented => 'Q',
+            FullCodeCharKind::InStringCommented => 'R',
+            FullCodeCharKind::StartString => 'T',
+            FullCodeCharKind::EndString => 'U',
+            FullCodeCharKind::InString => 'I',
+        }
+    }
+
+    /// `CharClasses::new(text.chars())`: one kind letter per character.
+    pub fn char_classes(text: &str) -> String {
+        CharClasses::new(text.chars())
+            .map(|(k, _)| kind_letter(k))
+            .collect()
+    }
+
+    /// `LineClasses::new(text)`: (kind letter, line) per line.
+    pub fn line_classes(text: &str) -> Vec<(char, String)> {
+        LineClasses::new(text)
+            .map(|(k, l)| (kind_letter(k), l))
+            .collect()
+    }
+}
